@@ -166,6 +166,18 @@ def falsify(ctx, case: Dict) -> bool:
             if feed == "batch":
                 ind = X.build(spec, X.mk_rows(rows), {})
                 ind.calculate()
+            elif feed == "recalc":
+                # the definition also holds for readings that were computed a second time
+                ind = X.build(spec, X.mk_rows(rows), {})
+                ind.calculate()
+                if case["recalc_op"] == "recalculate":
+                    ind.recalculate()
+                elif case["recalc_op"] == "purge":
+                    ind.purge()
+                    ind.calculate()
+                elif len(rows) > 0:
+                    for i_ in case["recalc_idx"]:
+                        ind.calculate_index(i_ % len(rows))
             elif feed == "single":
                 # the same definition must hold for an indicator that met the stream candle by candle
                 ind = X.build(spec, [], {})
@@ -249,13 +261,16 @@ def gen_case(rng, ctx, kinds: List[str]) -> Dict:
             r["inds"]["zsrc"] = rng.choice([0.0, 0]) if zero else rng.choice([1.5, -2.25, 3.0, 0.5])
         else:
             r["inds"]["zsrc"] = rng.choice([0.0, 0.0, 0, 1.5, -2.25, 3.0, 0.5])
-    feed = rng.choice(["batch", "batch", "batch", "single", "tf"])
+    feed = rng.choice(["batch", "batch", "batch", "single", "tf", "recalc"])
     if feed == "tf" and spec["kw"].get("input_value", "close") not in ("open", "high", "low", "close", "volume"):
         feed = "single"        # readings carried by raw candles do not survive a merge
     case = {"spec": spec, "cfg": {}, "rows": rows, "late": late, "feed": feed,
             "meta": {"kind": kind, "n": n, "late": late, "feed": feed}}
     if feed == "tf":
         case["tfk"] = rng.choice([2, 3])
+    if feed == "recalc":
+        case["recalc_op"] = rng.choice(["recalculate", "purge", "index"])
+        case["recalc_idx"] = [rng.randrange(0, 4), rng.randrange(0, 1000)]
     return case
 
 
